@@ -36,7 +36,7 @@ type Fault struct {
 }
 
 // FaultKinds is the palette of non-EOF errors real deployments meet.
-var FaultKinds = []string{"", "", "unexpected-eof", "timeout", "closed-pipe", "path-error", "eintr", "no-progress"}
+var FaultKinds = []string{"", "", "unexpected-eof", "timeout", "closed-pipe", "path-error", "no-progress"} // no EINTR: a reader may legitimately retry it
 
 // Err returns the error value the fault injects.
 func (f *Fault) Err() error {
@@ -87,11 +87,12 @@ type Stream struct {
 	Stalls     int   // stalls actually returned
 	Seq        []int // the delivery sequence actually executed (n per Read; -1 EOF, -2 injected error, +1000000 flag for with-err)
 	KeepSeq    bool
+	SeqHash    uint64 // running hash of the delivery sequence (always kept)
 }
 
 // NewStream builds a stream.
 func NewStream(data []byte, plan Plan) *Stream {
-	s := &Stream{Data: data, Plan: plan, end: len(data)}
+	s := &Stream{Data: data, Plan: plan, end: len(data), SeqHash: 1469598103934665603}
 	if plan.Fault != nil {
 		s.ferr = plan.Fault.Err()
 		if plan.Fault.Offset < s.end {
@@ -113,6 +114,7 @@ func (s *Stream) resume() {
 }
 
 func (s *Stream) note(n int) {
+	s.SeqHash = (s.SeqHash ^ uint64(int64(n))) * 1099511628211
 	if s.KeepSeq {
 		s.Seq = append(s.Seq, n)
 	}
